@@ -62,4 +62,17 @@ Expand(r) == (UNION { Members(r.groups[i]) : i \in 1..Len(r.groups) }) \cup { r.
 \* canonical: an API listed individually never belongs to a group that is listed, and no listed-able group is spelled out
 Canonical(r) == /\ \A i \in 1..Len(r.rest) : \A j \in 1..Len(r.groups) : r.rest[i] \notin Members(r.groups[j])
                 /\ \A g \in {"Comms", "Core", "Cleanup"} : ~(Members(g) \subseteq { r.rest[i] : i \in 1..Len(r.rest) })
+\* ---- scalar pretty values, frozen from the settings table of the configuration format: which index is shown how
+\* cstring = text up to the first NUL (bytes kept one to one), hex = lower-case hex of all bytes, cbytes = bytes up to the first NUL
+CStringIdx == {8, 9, 10, 15, 26, 27, 29, 30, 54, 60, 61, 62, 63, 64, 65, 66}
+HexIdx == {14, 53, 74}
+CBytesIdx == {36}
+ScalarIdx == CStringIdx \cup HexIdx \cup CBytesIdx
+ScalarKind(i) == IF i \in CStringIdx THEN "cstring" ELSE IF i \in HexIdx THEN "hex" ELSE "cbytes"
+HexDigit(n) == IF n < 10 THEN 48 + n ELSE 87 + n
+HexText(b) == [i \in 1..(2 * Len(b)) |-> IF i % 2 = 1 THEN HexDigit(b[(i + 1) \div 2] \div 16) ELSE HexDigit(b[i \div 2] % 16)]
+UpToNul(b) == LET S == { i \in 1..Len(b) : b[i] = 0 } IN IF S = {} THEN b ELSE SubSeq(b, 1, Min(S) - 1)
+RenderScalar(i, b) == IF ScalarKind(i) = "hex" THEN HexText(b) ELSE UpToNul(b)
+\* BOF allocator (index 16, a SHORT): 0 VirtualAlloc, 1 MapViewOfFile, 2 HeapAlloc
+BofAllocatorName(v) == CASE v = 0 -> "VirtualAlloc" [] v = 1 -> "MapViewOfFile" [] v = 2 -> "HeapAlloc" [] OTHER -> "none"
 =============================================================================
